@@ -144,6 +144,18 @@ Theorem assembled_result_passes_validate_signatures :
 Proof. exact Proofs.C40.assembled_result_valid. Qed.
 Print Assumptions assembled_result_passes_validate_signatures.
 
+(* the client's own acceptance check, as repaired in pkg/chain/ethereum/signer.go (it used to
+   ignore the recovery byte): a signature it accepts for a non-zero operator address satisfies
+   [ecdsa_recovers] outright, so for client-VERIFIED supporters the two signature theorems hold
+   with [signed := client_accepts ...] and no cryptographic premise at all (keys identified with
+   addresses, go-ethereum's Ecrecover with the precompile) *)
+Theorem client_accepted_signatures_recover :
+  forall ecrecover : bytes -> N -> bytes -> bytes -> N,
+  ecdsa_recovers ecrecover
+    (fun addr digest sig => client_accepts ecrecover addr digest sig = true /\ addr <> 0).
+Proof. exact Proofs.C40.client_accepted_ecdsa. Qed.
+Print Assumptions client_accepted_signatures_recover.
+
 (* the prefixed message the operator signer hashes equals OpenZeppelin's toEthSignedMessageHash
    preimage for a 32-byte hash *)
 Theorem eth_signed_message_preimage_equal :
